@@ -5,6 +5,7 @@ import (
 	"go/ast"
 	"go/printer"
 	"math/big"
+	"sort"
 	"strings"
 )
 
@@ -96,6 +97,59 @@ func c05CallOrder(p *Pkg, recv, fn string, want []string) bool {
 	return strings.Join(got, ",") == strings.Join(want, ",")
 }
 
+// c05Callers lists ("Recv.name", sorted) the functions of package p that contain
+// a call whose callee selector ends in one of `sels` (e.g. ".getSession").
+func c05Callers(p *Pkg, sels ...string) []string {
+	var out []string
+	for _, f := range p.Files {
+		for _, d := range f.Decls {
+			fd, ok := d.(*ast.FuncDecl)
+			if !ok || fd.Body == nil {
+				continue
+			}
+			hit := false
+			ast.Inspect(fd.Body, func(n ast.Node) bool {
+				if ce, ok := n.(*ast.CallExpr); ok {
+					var b strings.Builder
+					_ = printer.Fprint(&b, p.Fset, ce.Fun)
+					for _, w := range sels {
+						if strings.HasSuffix(b.String(), w) {
+							hit = true
+						}
+					}
+				}
+				return true
+			})
+			if !hit {
+				continue
+			}
+			recv := ""
+			if fd.Recv != nil && len(fd.Recv.List) > 0 {
+				t := fd.Recv.List[0].Type
+				if st, ok := t.(*ast.StarExpr); ok {
+					t = st.X
+				}
+				if id, ok := t.(*ast.Ident); ok {
+					recv = id.Name
+				}
+			}
+			out = append(out, recv+"."+fd.Name.Name)
+		}
+	}
+	sort.Strings(out)
+	return out
+}
+
+func c05StringListFact(name string, f func() []string) Fact {
+	return Fact{Name: name, Gen: func() string {
+		var q []string
+		for _, x := range f() {
+			q = append(q, fmt.Sprintf("%q%%string", x))
+		}
+		return fmt.Sprintf("Definition %s : list string := [%s].\n", name, strings.Join(q, "; "))
+	}}
+}
+
 func c05BoolFact(name string, f func() bool) Fact {
 	return Fact{Name: name, Gen: func() string { return defBool(name, f()) }}
 }
@@ -128,6 +182,23 @@ func init() {
 			return c05CallOrder(p, "StateMachine", "getSSMeta", []string{"s.sessions.SaveSessions"}) &&
 				c05CallOrder(p, "StateMachine", "prepare", []string{"s.getSSMeta"}) &&
 				!c05CallOrder(p, "StateMachine", "doSave", []string{"s.sessions.SaveSessions"})
+		}),
+		// who can refresh the LRU order (OrderedCache.Get moves the entry to the front):
+		// the cache lookups themselves, the session manager methods built on them, and the
+		// StateMachine methods that call those - all on the apply path (update /
+		// registerSession / unregisterSession) or the order-preserving save walk. A new
+		// caller (e.g. an accessor used by the client API) changes these lists.
+		c05StringListFact("src_lru_get_callers", func() []string {
+			return c05Callers(loadPkg("internal/rsm"), ".sessions.Get", ".getSessionLocked")
+		}),
+		c05StringListFact("src_get_session_callers", func() []string {
+			return c05Callers(loadPkg("internal/rsm"), ".getSession")
+		}),
+		c05StringListFact("src_session_lookup_callers", func() []string {
+			return c05Callers(loadPkg("internal/rsm"), ".ClientRegistered", ".RegisterClientID", ".UnregisterClientID")
+		}),
+		c05StringListFact("src_session_save_callers", func() []string {
+			return c05Callers(loadPkg("internal/rsm"), ".lru.save", ".lru.getHash", ".SaveSessions", ".GetSessionHash")
 		}),
 		c05BoolFact("src_evict_when_gt", func() bool {
 			return c05HasCmp(loadPkg("internal/rsm"), "", "newLRUSession", "uint64(n) > rec.size")
